@@ -369,6 +369,39 @@ theorem getNts_precompute {r : Ring Node} (hs : Sorted r) (S : List Strategy) (t
                   subst this
                   rw [Nat.min_eq_left (by rw [ntsReplicas_length]; omega), List.take_length]
 
+/-! ### `precompute` without the (identity) re-sort, so that concrete instances reduce in the kernel -/
+
+/-- `precompute` with every `mkRing` of an already sorted list dropped. -/
+def precomputeNoSort (r : Ring Node) (S : List Strategy) : Pre :=
+  let m := maxGlobalRf S
+  { global := ⟨r.map (fun e => (e.1, simpleReplicas r e.1 m)), m⟩
+    dcs := (uniq ((dcRfEntries S).map (·.1))).filterMap (fun dc =>
+      (if (dcRing r dc).isEmpty then none
+       else
+        let rc := rackCount r dc
+        let rfs := rfsFor S dc
+        some ({
+          compressed := ((rfs.filter (fun rf => decide (rf ≤ rc))).max?).map
+            (fun rf => ⟨(dcRing r dc).map (fun e => (e.1, ntsReplicas r e.1 dc rf)), rf⟩)
+          above := (rfs.filter (fun rf => decide (rc < rf))).map
+            (fun rf => (rf, (dcRing r dc).map (fun e => (e.1, ntsReplicas r e.1 dc rf)))) } : DcPre)).map
+        (fun d => (dc, d))) }
+
+theorem mkRing_pre {β γ : Type} {r : Ring β} (hs : Sorted r) (f : Int → γ) :
+    mkRing (r.map (fun e => (e.1, f e.1))) = r.map (fun e => (e.1, f e.1)) := by
+  apply mkRing_of_sorted
+  unfold Sorted; rw [List.pairwise_map]; exact hs
+
+/-- On a sorted ring the stable re-sorts inside `PrecomputedReplicas::compute` change nothing. -/
+theorem precompute_eq_noSort {r : Ring Node} (hs : Sorted r) (S : List Strategy) :
+    precompute r S = precomputeNoSort r S := by
+  unfold precompute precomputeNoSort precomputeDc ntsPreRing
+  have h1 := mkRing_pre hs (fun t => simpleReplicas r t (maxGlobalRf S))
+  have h2 : ∀ dc rf, mkRing ((dcRing r dc).map (fun e => (e.1, ntsReplicas r e.1 dc rf))) =
+      (dcRing r dc).map (fun e => (e.1, ntsReplicas r e.1 dc rf)) :=
+    fun dc rf => mkRing_pre (sorted_dcRing hs dc) (fun t => ntsReplicas r t dc rf)
+  simp only [h1, h2]
+
 /-! ### views of the unrestricted NetworkTopologyStrategy replica set -/
 
 theorem sum_map_zero {κ : Type} (l : List κ) (f : κ → Nat) (h : ∀ x ∈ l, f x = 0) : (l.map f).sum = 0 := by
